@@ -666,6 +666,10 @@ func TestC27(t *testing.T) {
 	r.Count("auto_declines_in_reference", nAutoDeclined)
 	r.Count("responses_handled_by_proxy", nHandledTrue)
 	r.Count("responses_left_to_backend", nHandledFalse)
+
+	// the live-proxy layer runs after the unit layer (whose self-deadlock proofs rely on the
+	// process being otherwise idle)
+	e2eLayer(r)
 }
 
 func indexReport(l []ref.Report, x ref.Report) int {
